@@ -1,0 +1,13 @@
+//go:build verif
+
+// Contracts for package auth, checked by /verif/govc (comment-only; not part of any normal build).
+
+package auth
+
+//@ func (*Auth).Configure
+//@   prop C20
+//@   ensures [strict-needs-pbdf] config.Strictmode && old(auth.config.Irma.SchemeManager) != "pbdf" ==> !isNilIface(result)
+//@   call notary.NewNotary #1 requires arg(0).StrictMode == config.Strictmode
+//@   call oauth.NewRelyingParty #1 requires arg(6) == config.Strictmode
+//@   call (oauth.AuthorizationServer).Configure #1 requires arg(2) == config.Strictmode
+//@   cover call (oauth.AuthorizationServer).Configure #1
